@@ -32,8 +32,8 @@ func init() {
 	Register(&Rule{
 		ID:    "R-POOL",
 		Doc:   "typestate per sync.Pool object x := P.Get(): after P.Put(x) no use of x or of memory loaded from it; nothing derived from x's memory flows to a return (copy-out); a released tokenizer stack is dropped from its owner",
-		Props: []string{"C09", "C10", "C17", "C03"},
-		Min:   map[string]int{"C09": 7, "C10": 2, "C17": 1, "C03": 1},
+		Props: []string{"C09", "C10", "C17", "C03", "C06", "C01"},
+		Min:   map[string]int{"C09": 7, "C10": 2, "C17": 1, "C03": 1, "C06": 5, "C01": 5},
 		Run:   runPool,
 	})
 	Register(&Rule{
@@ -887,6 +887,7 @@ func runPool(c *core.Ctx) []core.Obligation {
 			}
 			var ps []putSite
 			var anyClean ssa.Instruction
+			_ = anyClean
 			for _, p := range puts {
 				if _, isWrapper := p.at.(ssa.CallInstruction); !isWrapper {
 					continue
@@ -894,6 +895,26 @@ func runPool(c *core.Ctx) []core.Obligation {
 				site := putSite{at: p.at}
 				for _, blk := range fn.Blocks {
 					for _, in := range blk.Instrs {
+						if st, ok := in.(*ssa.Store); ok {
+							// truncation of a slice field of the pooled object: s.elements = s.elements[:0]
+							fa, isFA := st.Addr.(*ssa.FieldAddr)
+							sl, isSl := st.Val.(*ssa.Slice)
+							if !isFA || !isSl || sl.High == nil {
+								continue
+							}
+							if k, ok := constInt(sl.High); !ok || k != 0 {
+								continue
+							}
+							parg := p.arg
+							if mi, ok := parg.(*ssa.MakeInterface); ok {
+								parg = mi.X
+							}
+							if (fa.X == parg || isSameObject(fa.X, parg) || isSameObject(parg, fa.X)) && instrDominates(st, p.at) {
+								site.clean = true
+								anyClean = st
+							}
+							continue
+						}
 						call, ok := in.(*ssa.Call)
 						if !ok {
 							continue
@@ -916,6 +937,11 @@ func runPool(c *core.Ctx) []core.Obligation {
 				ps = append(ps, site)
 			}
 			if anyClean != nil {
+				props := props
+				if strings.HasPrefix(shortName(fn), "json.(encoder)") {
+					// a dirty scratch slice makes the sibling encoders panic on a stale element or emit extra members
+					props = append(append([]string{}, props...), "C06", "C01")
+				}
 				for _, site := range ps {
 					key := "pool:scrub-before-put@" + shortName(fn)
 					if site.clean {
